@@ -7,7 +7,10 @@ Inductive c10_case :=
 | QDiff (lim : list (N * N)) (ops : list pq_op) (obs_heap obs_sorted : list pq_obs)
 | QSame (lim : list (N * N)) (ops : list pq_op) (obs_both : list pq_obs)
 (* a BarrelList driven directly *)
-| BCase (lim : list (N * N)) (ops : list bl_op) (obs : list bl_obs).
+| BCase (lim : list (N * N)) (ops : list bl_op) (obs : list bl_obs)
+(* a drained big history at the real _size_factor, both classes (Spec.big_ok) *)
+| BigDiff (p : big_params) (obs_heap obs_sorted : big_obs)
+| BigSame (p : big_params) (obs_both : big_obs).
 
 Definition pq_obs_eqb (a b : pq_obs) : bool :=
   match a, b with
@@ -50,16 +53,33 @@ Definition c10_verdict (c : c10_case) : verdict :=
       (list_eqb bl_obs_eqb (model_barrel lim ops) o,
        list_eqb bl_obs_eqb (lspec_run [] ops) o,
        false)
+  (* too big to run the model (unary tokens, quadratic): both bits are decided by
+     the Spec-level checker big_ok; by C10_heap_refines / C10_sorted_refines the
+     model returns what spec_run returns on every history, so no separate model
+     run is attempted here *)
+  | BigDiff p oh os => let ok := big_ok p oh && big_ok p os in (ok, ok, false)
+  | BigSame p o => let ok := big_ok p o in (ok, ok, false)
   end.
 
 (* what model and spec say, for replay files *)
 Inductive c10_explanation :=
 | QExplain (model_heap_says model_sorted_says spec_says : list pq_obs)
-| BExplain (model_says spec_says : list bl_obs).
+| BExplain (model_says spec_says : list bl_obs)
+| BigExplain (live_tasks : N) (first_bad_position_heap first_bad_position_sorted : option N).
+
+(* position of the first popped task that is not live or not served before its successor *)
+Fixpoint first_bad (p : big_params) (i : N) (l : list N) : option N :=
+  match l with
+  | [] => None
+  | a :: r => if live p a && match r with [] => true | b :: _ => before p a b end
+              then first_bad p (i + 1)%N r else Some i
+  end.
 
 Definition c10_explain (c : c10_case) : c10_explanation :=
   match c with
   | QDiff lim ops _ _ | QSame lim ops _ =>
       QExplain (model_heap ops) (model_sorted lim ops) (spec_run [] ops)
   | BCase lim ops _ => BExplain (model_barrel lim ops) (lspec_run [] ops)
+  | BigDiff p oh os => BigExplain (count_live p (N.to_nat (bn p)) 0) (first_bad p 0 (o_pops oh)) (first_bad p 0 (o_pops os))
+  | BigSame p o => BigExplain (count_live p (N.to_nat (bn p)) 0) (first_bad p 0 (o_pops o)) (first_bad p 0 (o_pops o))
   end.
